@@ -188,61 +188,70 @@ func indexLoopDirection(info *types.Info, s *ast.ForStmt, i, coll types.Object) 
 // not inside go/defer/function literals.
 func closeLoopBody(info *types.Info, loop ast.Stmt, body *ast.BlockStmt, isElem func(ast.Expr) bool) *closeLoop {
 	var found *closeLoop
-	var walk func(stmts []ast.Stmt, guarded string) // guarded: reason the path is conditional
-	walk = func(stmts []ast.Stmt, guarded string) {
-		for _, st := range stmts {
-			switch s := st.(type) {
-			case *ast.IfStmt:
-				// if err := elem.Close(); err != nil {...}
-				if s.Init != nil {
-					checkStmtForClose(info, s.Init, isElem, guarded, &found)
-				}
-				// nil test of the element?
-				g := guarded
-				if !isNilTestOf(info, s.Cond, isElem, true) {
-					g = "condition " + exprStr(s.Cond)
-				}
-				walk(s.Body.List, g)
-				if s.Else != nil {
-					switch e := s.Else.(type) {
-					case *ast.BlockStmt:
-						walk(e.List, "else branch of "+exprStr(s.Cond))
-					case *ast.IfStmt:
-						walk([]ast.Stmt{e}, "else branch of "+exprStr(s.Cond))
-					}
-				}
-			case *ast.BlockStmt:
-				walk(s.List, guarded)
+	// the Close call on the element (go / defer / nested loops are reported as problems)
+	var visit func(n ast.Node, ctx string)
+	visit = func(n ast.Node, ctx string) {
+		ast.Inspect(n, func(x ast.Node) bool {
+			switch s := x.(type) {
+			case *ast.FuncLit:
+				return false
 			case *ast.GoStmt:
 				for _, c := range callsIn(s, true) {
 					if r, k, ok := isCloseCall(info, c); ok && isElem(r) {
 						found = &closeLoop{stmt: loop, closeCall: c, kind: k, problem: "the element is closed in a goroutine started by the loop, not by the loop itself: closes are no longer sequential"}
 					}
 				}
+				return false
 			case *ast.DeferStmt:
 				for _, c := range callsIn(s, true) {
 					if r, k, ok := isCloseCall(info, c); ok && isElem(r) {
 						found = &closeLoop{stmt: loop, closeCall: c, kind: k, problem: "the element's Close is deferred inside the loop"}
 					}
 				}
-			case *ast.ForStmt, *ast.RangeStmt, *ast.SwitchStmt, *ast.TypeSwitchStmt, *ast.SelectStmt:
-				// nested control flow: closes in there are not the loop's own
-				for _, c := range callsIn(s, false) {
-					if r, k, ok := isCloseCall(info, c); ok && isElem(r) && found == nil {
-						found = &closeLoop{stmt: loop, closeCall: c, kind: k, problem: "the element is closed under nested control flow"}
+				return false
+			case *ast.ForStmt, *ast.RangeStmt, *ast.SelectStmt:
+				if x != n {
+					for _, c := range callsIn(s, false) {
+						if r, k, ok := isCloseCall(info, c); ok && isElem(r) && found == nil {
+							found = &closeLoop{stmt: loop, closeCall: c, kind: k, problem: "the element is closed under nested control flow"}
+						}
+					}
+					return false
+				}
+			case *ast.CallExpr:
+				if r, k, ok := isCloseCall(info, s); ok && isElem(r) {
+					if found == nil || found.problem != "" {
+						found = &closeLoop{stmt: loop, closeCall: s, kind: k}
 					}
 				}
-			default:
-				checkStmtForClose(info, st, isElem, guarded, &found)
 			}
-		}
+			return true
+		})
 	}
-	walk(body.List, "")
+	visit(body, "")
 	if found == nil {
 		return nil
 	}
 	found.stmt = loop
-	// exits that skip elements
+	if found.problem != "" {
+		return found
+	}
+	// every iteration reaches the Close call: the conditions it is control dependent
+	// on are nil tests of the element (taken on the non-nil side)
+	conds, want := controllingCondsInfo(info, body, found.closeCall.Pos())
+	for i, cd := range conds {
+		okCond := false
+		if want[i] && isNilTestOf(info, cd, isElem, true) { // elem != nil, taken
+			okCond = true
+		}
+		if !want[i] && isNilTestOf(info, cd, isElem, false) { // elem == nil, not taken
+			okCond = true
+		}
+		if !okCond && found.problem == "" {
+			found.problem = "the Close call is conditional on " + exprStr(cd) + " (only a nil test of the element may guard it)"
+		}
+	}
+	// exits that skip the remaining elements
 	inspectNoLit(body, func(n ast.Node) bool {
 		switch b := n.(type) {
 		case *ast.BranchStmt:
@@ -250,10 +259,6 @@ func closeLoopBody(info *types.Info, loop ast.Stmt, body *ast.BlockStmt, isElem 
 			case token.BREAK, token.GOTO:
 				if found.problem == "" {
 					found.problem = fmt.Sprintf("%s inside the loop leaves remaining elements unclosed", b.Tok)
-				}
-			case token.CONTINUE:
-				if b.Pos() < found.closeCall.Pos() && found.problem == "" {
-					found.problem = "continue before the Close call skips an element"
 				}
 			}
 		case *ast.ReturnStmt:
@@ -312,6 +317,40 @@ func localOrigin(w *World, fi *FuncInfo, obj types.Object) (*types.Var, string) 
 		}
 		return true
 	})
+	// a parameter of a private function: the origin of what every call site passes
+	if len(assigns) == 0 && w != nil && !fi.Obj.Exported() {
+		idx, k := -1, 0
+		for _, f := range fi.Decl.Type.Params.List {
+			for _, nm := range f.Names {
+				if info.Defs[nm] == obj {
+					idx = k
+				}
+				k++
+			}
+		}
+		if idx >= 0 {
+			var fv *types.Var
+			how := ""
+			okAll, n := true, 0
+			for caller := range w.Callers()[fi] {
+				for _, c := range callsIn(caller.Decl.Body, true) {
+					if callee(caller.Pkg.TypesInfo, c) != fi.Obj || idx >= len(c.Args) {
+						continue
+					}
+					n++
+					f2, h2 := exprOrigin(w, caller, c.Args[idx])
+					if f2 == nil || (fv != nil && (f2 != fv || h2 != how)) {
+						okAll = false
+					}
+					fv, how = f2, h2
+				}
+			}
+			if okAll && n > 0 && fv != nil {
+				return fv, how
+			}
+			return nil, ""
+		}
+	}
 	if len(assigns) == 1 && len(assigns[0].Lhs) == 1 && len(assigns[0].Rhs) == 1 {
 		if fv := fieldOf(info, assigns[0].Rhs[0]); fv != nil {
 			return fv, "copy"
